@@ -2653,6 +2653,15 @@ impl SctpInner {
         if cookie_echoed {
             self.handle_cookie_ack(Bytes::new()).await?;
         }
+        // DATA is only meaningful on an association this side has finished setting up: while
+        // our INIT is unanswered the peer's initial TSN is unknown, and the responding side has
+        // not validated a COOKIE ECHO yet (taking the chunk would deliver it before the
+        // channel's Open). Drop it; the peer retransmits.
+        let awaiting_init_ack = matches!(*self.t1_chunk.lock(), Some((CT_INIT, _, _)));
+        let awaiting_cookie_echo = !self.is_client && *self.state.lock() != SctpState::Connected;
+        if awaiting_init_ack || awaiting_cookie_echo {
+            return Ok(());
+        }
 
         // Deduplication and Ordering Check
         let cumulative_ack = self.cumulative_tsn_ack.load(Ordering::Relaxed);
